@@ -186,60 +186,60 @@ func itoa64(i int64) string { return big.NewInt(i).String() }
 
 func genParts(t *rapid.T) c14PartsArgs {
 	a := c14PartsArgs{Neg: genSign(t)}
-	switch rapid.IntRange(0, 11).Draw(t, "formKind") {
+	switch ir(t, 0, 11, "formKind") {
 	case 0:
-		a.Form = byte(rapid.IntRange(0, 255).Draw(t, "form"))
+		a.Form = byte(ir(t, 0, 255, "form"))
 	case 1:
-		a.Form = byte(rapid.IntRange(1, 3).Draw(t, "form"))
+		a.Form = byte(ir(t, 1, 3, "form"))
 	}
 	// coefficient = c * 10^z + small, with leading zero bytes
 	var c *big.Int
-	switch rapid.IntRange(0, 5).Draw(t, "coefKind") {
+	switch ir(t, 0, 5, "coefKind") {
 	case 0:
 		c = genCoef(t)
 	case 1:
-		c = new(big.Int).Add(ref.Cmax, bi(int64(rapid.IntRange(-2, 12).Draw(t, "off"))))
+		c = new(big.Int).Add(ref.Cmax, bi(int64(ir(t, -2, 12, "off"))))
 	case 2:
 		c = new(big.Int).SetBytes(rapid.SliceOfN(rapid.Byte(), 0, 40).Draw(t, "rawCoef"))
 	default:
 		c = genCoef(t)
 	}
 	z := 0
-	switch rapid.IntRange(0, 4).Draw(t, "zKind") {
+	switch ir(t, 0, 4, "zKind") {
 	case 1:
-		z = rapid.IntRange(1, 40).Draw(t, "z")
+		z = ir(t, 1, 40, "z")
 	case 2:
-		z = rapid.IntRange(40, 900).Draw(t, "z")
+		z = ir(t, 40, 900, "z")
 	case 3:
-		z = []int{4, 8, 19, 38, 57, 76}[rapid.IntRange(0, 5).Draw(t, "zStep")] + rapid.IntRange(-1, 1).Draw(t, "zOff")
+		z = []int{4, 8, 19, 38, 57, 76}[ir(t, 0, 5, "zStep")] + ir(t, -1, 1, "zOff")
 	}
 	c = new(big.Int).Mul(c, ref.Pow10(z))
-	if rapid.IntRange(0, 5).Draw(t, "addSmall") == 0 {
-		c.Add(c, bi(int64(rapid.IntRange(1, 9).Draw(t, "small"))))
+	if ir(t, 0, 5, "addSmall") == 0 {
+		c.Add(c, bi(int64(ir(t, 1, 9, "small"))))
 	}
 	a.Coef = c.Bytes()
-	if lz := rapid.IntRange(0, 6).Draw(t, "leadingZeroBytes"); lz > 2 {
+	if lz := ir(t, 0, 6, "leadingZeroBytes"); lz > 2 {
 		a.Coef = append(make([]byte, lz-2), a.Coef...)
 	}
 	nd := ref.DecLen(c)
-	switch rapid.IntRange(0, 7).Draw(t, "expKind") {
+	switch ir(t, 0, 7, "expKind") {
 	case 0:
 		a.Exp = int32(genExp(t))
 	case 1:
 		// coefficient compensates an exponent below the range
-		a.Exp = int32(ref.Emin - rapid.IntRange(0, z+40).Draw(t, "below"))
+		a.Exp = int32(ref.Emin - ir(t, 0, z+40, "below"))
 	case 2:
 		// exponent above the range, compensated by a short coefficient
-		a.Exp = int32(ref.Emax + rapid.IntRange(0, 40).Draw(t, "above"))
+		a.Exp = int32(ref.Emax + ir(t, 0, 40, "above"))
 	case 3:
 		a.Exp = int32(genNear(t, 40, ref.Emin-35, ref.Emin, ref.Emax, ref.Emax-z, ref.Emax+35-nd, 6145-nd))
 	case 4:
-		a.Exp = []int32{math.MinInt32, math.MinInt32 + 1, math.MaxInt32, math.MaxInt32 - 1, math.MaxInt32 - 18, math.MaxInt32 - 19, -1 << 15, 1 << 15, 1<<16 - 6176}[rapid.IntRange(0, 8).Draw(t, "extreme")]
+		a.Exp = []int32{math.MinInt32, math.MinInt32 + 1, math.MaxInt32, math.MaxInt32 - 1, math.MaxInt32 - 18, math.MaxInt32 - 19, -1 << 15, 1 << 15, 1<<16 - 6176}[ir(t, 0, 8, "extreme")]
 	case 5:
-		a.Exp = rapid.Int32().Draw(t, "anyExp")
+		a.Exp = int32(u32(t, "anyExp"))
 	default:
 		// keep the leading digit inside the range
-		a.Exp = int32(rapid.IntRange(ref.Emin-5, 6146).Draw(t, "lead") - nd)
+		a.Exp = int32(ir(t, ref.Emin-5, 6146, "lead") - nd)
 	}
 	return a
 }
@@ -247,15 +247,15 @@ func genParts(t *rapid.T) c14PartsArgs {
 func TestC14_RoundTrip(t *testing.T) {
 	runRapid(t, 60000, 3000000, func(t *rapid.T) {
 		a := c14RTArgs{V: genAny(t), BufLen: -1}
-		switch rapid.IntRange(0, 3).Draw(t, "bufKind") {
+		switch ir(t, 0, 3, "bufKind") {
 		case 1:
-			a.BufCap = rapid.IntRange(0, 15).Draw(t, "cap")
-			a.BufLen = rapid.IntRange(0, a.BufCap).Draw(t, "len")
+			a.BufCap = ir(t, 0, 15, "cap")
+			a.BufLen = ir(t, 0, a.BufCap, "len")
 		case 2:
-			a.BufCap = rapid.IntRange(16, 40).Draw(t, "cap")
-			a.BufLen = rapid.IntRange(0, a.BufCap).Draw(t, "len")
+			a.BufCap = ir(t, 16, 40, "cap")
+			a.BufLen = ir(t, 0, a.BufCap, "len")
 		case 3:
-			a.BufCap, a.BufLen = 16, rapid.IntRange(0, 16).Draw(t, "len")
+			a.BufCap, a.BufLen = 16, ir(t, 0, 16, "len")
 		}
 		c14rt.Run(t, a)
 	})
